@@ -346,7 +346,6 @@ class MailboxData(MailboxDataInterface[Message]):
         recent = 0
         unseen = 0
         first_unseen: int | None = None
-        next_uid = self._max_uid + 1
         async for msg in self.messages():
             exists += 1
             if msg.recent:
@@ -355,6 +354,8 @@ class MailboxData(MailboxDataInterface[Message]):
                 unseen += 1
                 if first_unseen is None:
                     first_unseen = exists
+        # read after counting: waiting for the lock may have let an append in
+        next_uid = self._max_uid + 1
         return MailboxSnapshot(self.mailbox_id, self.readonly,
                                self.uid_validity, self.permanent_flags,
                                self.session_flags, exists, recent, unseen,
